@@ -65,6 +65,10 @@ def render(st, n, opts=None):
             heads.append("%s %s" % (DIRW[a["dir"]], rng(len(st["portPins"][p - 1]), a["lower"])))
             decls.append("%s %s%s" % (DIRW[a["dir"]], rng(len(st["portPins"][p - 1]), a["lower"]),
                                       ident(st["portData"][p - 1]["name"], False)))
+        dk = st["defData"][d - 1].get("k", "")
+        if dk:          # a module attribute, written as TWO separate attribute sets ahead of the module
+            w('(* A = "%s" *)' % dk)
+            w('(* B = "1" *)')
         if opts.get("ansi"):
             w("module %s(%s);" % (modname(dname), ", ".join(decls)))
         else:
@@ -197,7 +201,8 @@ def render(st, n, opts=None):
             if opts.get("positional") and all(e for _, e in conns) and not undeclared:     # positional maps with every port connected
                 args = ", ".join(e for _, e in conns)
             else:
-                args = ", ".join(".%s(%s)" % (ident(pn, False), e) for pn, e in conns)
+                sepc = ", /* c1 */ // c2\n      " if opts.get("comments") else ", "      # two comments in a row after a comma
+                args = sepc.join(".%s(%s)" % (ident(pn, False), e) for pn, e in conns)
             ik = st["instData"][i - 1].get("k", "")
             ip = st["instData"][i - 1].get("props", "")
             w("  %s%s %s%s(%s);" % (('(* A = "%s" *) ' % ik) if ik else "", modname(st["defData"][r - 1]["name"]),
